@@ -272,7 +272,7 @@ def declared_fields(body):
     return out
 
 
-STMT_TAGS = {"let", "expr", "print", "if", "while", "for", "break", "continue", "return", "fn", "class", "try", "raise", "implicit", "import", "export", "raw"}
+STMT_TAGS = {"let", "expr", "print", "if", "while", "for", "break", "continue", "return", "fn", "class", "try", "trym", "raise", "implicit", "import", "export", "raw"}
 
 # ------------------------------------------------------------------ interpreter
 
@@ -535,6 +535,24 @@ class Interp:
                 self.fill_backtrace(e.inst, depth)
                 self.set_line(s)
                 self.exec_block(s[4], env + [{s[2]: Cell(e.inst)}], new_scope=False)
+        elif t == "trym":
+            # ['trym', body, [(var, class name|None, handler), ...]]: the first clause whose class matches runs
+            depth = len(self.frames)
+            try:
+                self.exec_block(s[1], env, new_scope=True)
+            except LErr as e:
+                for var, cname, handler in s[2]:
+                    want = self.lookup(env, cname).v if cname else self.classes["Error"]
+                    if not isinstance(want, LClass):
+                        raise Unsupported("catch filter is not a class")
+                    if e.inst.cls.is_sub(want):
+                        del self.frames[depth:]
+                        self.fill_backtrace(e.inst, depth)
+                        self.set_line(s)
+                        self.exec_block(handler, env + [{var: Cell(e.inst)}], new_scope=False)
+                        break
+                else:
+                    raise
         elif t == "raise":
             v = self.eval(s[1], env)
             if not (isinstance(v, Instance) and v.cls.is_sub(self.classes["Error"])):
@@ -1156,6 +1174,13 @@ class Printer:
             self.block(s[1], ind + 1)
             self.emit(pad + "} catch " + s[2] + (": " + s[3] if s[3] else "") + " {")
             self.block(s[4], ind + 1)
+            self.emit(pad + "}")
+        elif t == "trym":
+            self.emit(pad + "try {", s)
+            self.block(s[1], ind + 1)
+            for var, cname, handler in s[2]:
+                self.emit(pad + "} catch " + var + (": " + cname if cname else "") + " {")
+                self.block(handler, ind + 1)
             self.emit(pad + "}")
         elif t == "raise":
             self.emit(pad + "raise " + self.top(s[1]) + ";", s)
